@@ -23,11 +23,18 @@ From LV Require Import Auth.Des Gen.Consts_C05.
 Import ListNotations.
 
 Record cfg := mkCfg {
-  cfg_global_check : bool;  (* true: rfbProcessClientSecurityType trusts the process-global list (before fix 1) *)
-  cfg_weak_refused : bool   (* true: the DES backend refuses weak keys and rfbEncryptBytes ignores it (before fix 2) *)
+  cfg_global_check : bool;  (* true: rfbProcessClientSecurityType trusts the process-global list (before fix 1, commit 39c3ee3) *)
+  cfg_weak_refused : bool;  (* true: the DES backend refuses weak keys and rfbEncryptBytes ignores it (before fix 2, commit fa69878) *)
+  cfg_unreg_single : bool;  (* true: rfbUnregisterSecurityHandler unlinks exactly one handler and clears its ->next
+                               (proposed notes/fix_C05_3.diff); false: it recurses on ->next (code as of /repo HEAD) *)
+  cfg_ext : list Z          (* the security types of the four application handler objects (ids 2..5) *)
 }.
-Definition cfg_fixed : cfg := mkCfg false false.
-Definition cfg_legacy : cfg := mkCfg true true.
+Definition default_ext : list Z := [16%Z; 30%Z; c05_rfbSecTypeVncAuth; c05_rfbSecTypeNone].
+(* the code with fixes 1 and 2, parametrised by the list-handling variant and the application types *)
+Definition cfgF (single : bool) (ext : list Z) : cfg := mkCfg false false single ext.
+Definition cfg_fixed : cfg := cfgF false default_ext.      (* /repo HEAD *)
+Definition cfg_fixed3 : cfg := cfgF true default_ext.      (* HEAD + notes/fix_C05_3.diff *)
+Definition cfg_legacy : cfg := mkCfg true true false default_ext.   (* before the fixes: regression witness only *)
 
 (* ---------------------------------------------------------------- bytes *)
 Definition be16 (x : N) : list N := N_to_bytes 2 x.
@@ -42,9 +49,9 @@ Record hstore := mkHs { h_head : option nat; h_next : list (option nat) }.
 
 Definition H_VNCAUTH : nat := 0.
 Definition H_NONE : nat := 1.
-Definition htypes : list Z :=
-  [c05_rfbSecTypeVncAuth; c05_rfbSecTypeNone; 16%Z; 30%Z; c05_rfbSecTypeVncAuth; c05_rfbSecTypeNone].
-Definition hstore_init : hstore := mkHs None (repeat None (length htypes)).
+Definition NHANDLERS : nat := 6.
+Definition htypes (ext : list Z) : list Z := c05_rfbSecTypeVncAuth :: c05_rfbSecTypeNone :: ext.
+Definition hstore_init : hstore := mkHs None (repeat None NHANDLERS).
 Definition LIST_FUEL : nat := 16.
 Definition REC_FUEL : nat := 40.
 
@@ -109,9 +116,13 @@ Fixpoint hs_unlink (fuel : nat) (st : hstore) (pre : nat) (cur : option nat) (h 
       end
   end.
 
-(* rfbUnregisterSecurityHandler (note the recursion on handler->next: everything that follows
-   the handler in the list is unregistered too) *)
-Fixpoint hs_unregister (fuel : nat) (st : hstore) (h : option nat) : option hstore :=
+(* rfbUnregisterSecurityHandler.
+   single = false (/repo HEAD): note the recursion on handler->next, which after registration is the
+     link of the global list: everything that follows the handler in the list is unregistered too,
+     and the handler keeps its ->next.
+   single = true (notes/fix_C05_3.diff): a registered handler is unlinked alone and its ->next is
+     cleared; only for a handler that is not registered the caller-built ->next chain is followed. *)
+Fixpoint hs_unregister (fuel : nat) (single : bool) (st : hstore) (h : option nat) : option hstore :=
   match fuel with
   | O => None
   | S f =>
@@ -121,14 +132,30 @@ Fixpoint hs_unregister (fuel : nat) (st : hstore) (h : option nat) : option hsto
           match nth_error (h_next st) hid with
           | None => None
           | Some next =>
+              if single then
+                match hs_member LIST_FUEL st (h_head st) hid with
+                | None => None
+                | Some false => hs_unregister f single st next
+                | Some true =>
+                    match h_head st with
+                    | Some hd =>
+                        if Nat.eqb hd hid then Some (mkHs next (set_nth (h_next st) hid None))
+                        else match hs_unlink LIST_FUEL st hd (Some hd) hid with
+                             | None => None
+                             | Some st' => Some (mkHs (h_head st') (set_nth (h_next st') hid None))
+                             end
+                    | None => None
+                    end
+                end
+              else
               match h_head st with
               | Some hd =>
-                  if Nat.eqb hd hid then hs_unregister f (mkHs next (h_next st)) next
+                  if Nat.eqb hd hid then hs_unregister f single (mkHs next (h_next st)) next
                   else match hs_unlink LIST_FUEL st hd (Some hd) hid with
                        | None => None
-                       | Some st' => hs_unregister f st' next
+                       | Some st' => hs_unregister f single st' next
                        end
-              | None => hs_unregister f st next
+              | None => hs_unregister f single st next
               end
           end
       end
@@ -139,7 +166,7 @@ Definition is_builtin (c : nat) : bool := Nat.eqb c H_VNCAUTH || Nat.eqb c H_NON
 (* the for loop of rfbSendSecurityTypeList; [room] = MAX_SECURITY_TYPES - 1.
    legacy = false: (fix 1) a built-in handler other than the client's primary type is not
    advertised (it can be in the list on behalf of another client / through a stale ->next) *)
-Fixpoint hs_types (fuel : nat) (legacy : bool) (primary : Z) (st : hstore) (cur : option nat) (room : nat)
+Fixpoint hs_types (fuel : nat) (tys : list Z) (legacy : bool) (primary : Z) (st : hstore) (cur : option nat) (room : nat)
   : option (list Z) :=
   match fuel with
   | O => None
@@ -150,11 +177,11 @@ Fixpoint hs_types (fuel : nat) (legacy : bool) (primary : Z) (st : hstore) (cur 
           match room with
           | O => Some []
           | S r =>
-              match nth_error htypes c, nth_error (h_next st) c with
+              match nth_error tys c, nth_error (h_next st) c with
               | Some t, Some nx =>
                   if negb legacy && is_builtin c && negb (Z.eqb t primary)
-                  then hs_types f legacy primary st nx room
-                  else match hs_types f legacy primary st nx r with
+                  then hs_types f tys legacy primary st nx room
+                  else match hs_types f tys legacy primary st nx r with
                        | None => None
                        | Some l => Some (t :: l)
                        end
@@ -176,7 +203,7 @@ Definition builtin_sel (primary : Z) : hsel :=
    legacy = false: (fix 1) a built-in handler found in the list is skipped unless the chosen type
                    is this client's own primary type; if the loop finds nothing and the chosen
                    type is the client's primary type the built-in handler is used anyway. *)
-Fixpoint hs_find (fuel : nat) (legacy : bool) (st : hstore) (cur : option nat) (chosen primary : Z)
+Fixpoint hs_find (fuel : nat) (tys : list Z) (legacy : bool) (st : hstore) (cur : option nat) (chosen primary : Z)
   : option hsel :=
   match fuel with
   | O => None
@@ -184,11 +211,11 @@ Fixpoint hs_find (fuel : nat) (legacy : bool) (st : hstore) (cur : option nat) (
       match cur with
       | None => Some (if negb legacy && Z.eqb chosen primary then builtin_sel primary else HReject)
       | Some c =>
-          match nth_error htypes c, nth_error (h_next st) c with
+          match nth_error tys c, nth_error (h_next st) c with
           | Some t, Some nx =>
               if Z.eqb t chosen && (legacy || negb (is_builtin c) || Z.eqb chosen primary)
               then Some (sel_of c)
-              else hs_find f legacy st nx chosen primary
+              else hs_find f tys legacy st nx chosen primary
           | _, _ => None
           end
       end
@@ -214,25 +241,28 @@ Record conn := mkConn {
   c_resp : option (list N);     (* ghost: the response read in RFB_AUTHENTICATION *)
   c_vo : bool;                  (* cl->viewOnly *)
   c_out : list N;               (* everything written to the client so far *)
-  c_ext : list nat              (* application handlers invoked for this client *)
+  c_ext : list nat;             (* application handlers invoked for this client *)
+  c_pws : list (list N)         (* ghost: the passwords the screen accepted when the response was checked *)
 }.
 
 Definition set_st (c : conn) (s : cstate) : conn :=
-  mkConn (c_screen c) (c_rev c) s (c_minor c) (c_chal c) (c_sent c) (c_resp c) (c_vo c) (c_out c) (c_ext c).
+  mkConn (c_screen c) (c_rev c) s (c_minor c) (c_chal c) (c_sent c) (c_resp c) (c_vo c) (c_out c) (c_ext c) (c_pws c).
 Definition add_out (c : conn) (b : list N) : conn :=
-  mkConn (c_screen c) (c_rev c) (c_st c) (c_minor c) (c_chal c) (c_sent c) (c_resp c) (c_vo c) (c_out c ++ b) (c_ext c).
+  mkConn (c_screen c) (c_rev c) (c_st c) (c_minor c) (c_chal c) (c_sent c) (c_resp c) (c_vo c) (c_out c ++ b) (c_ext c) (c_pws c).
 Definition set_minor (c : conn) (m : Z) : conn :=
-  mkConn (c_screen c) (c_rev c) (c_st c) m (c_chal c) (c_sent c) (c_resp c) (c_vo c) (c_out c) (c_ext c).
+  mkConn (c_screen c) (c_rev c) (c_st c) m (c_chal c) (c_sent c) (c_resp c) (c_vo c) (c_out c) (c_ext c) (c_pws c).
 Definition set_chal (c : conn) (ch : list N) : conn :=
-  mkConn (c_screen c) (c_rev c) (c_st c) (c_minor c) ch (c_sent c) (c_resp c) (c_vo c) (c_out c) (c_ext c).
+  mkConn (c_screen c) (c_rev c) (c_st c) (c_minor c) ch (c_sent c) (c_resp c) (c_vo c) (c_out c) (c_ext c) (c_pws c).
 Definition set_sent (c : conn) (ch : list N) : conn :=
-  mkConn (c_screen c) (c_rev c) (c_st c) (c_minor c) (c_chal c) ch (c_resp c) (c_vo c) (c_out c) (c_ext c).
+  mkConn (c_screen c) (c_rev c) (c_st c) (c_minor c) (c_chal c) ch (c_resp c) (c_vo c) (c_out c) (c_ext c) (c_pws c).
 Definition set_resp (c : conn) (r : list N) : conn :=
-  mkConn (c_screen c) (c_rev c) (c_st c) (c_minor c) (c_chal c) (c_sent c) (Some r) (c_vo c) (c_out c) (c_ext c).
+  mkConn (c_screen c) (c_rev c) (c_st c) (c_minor c) (c_chal c) (c_sent c) (Some r) (c_vo c) (c_out c) (c_ext c) (c_pws c).
 Definition set_vo (c : conn) (v : bool) : conn :=
-  mkConn (c_screen c) (c_rev c) (c_st c) (c_minor c) (c_chal c) (c_sent c) (c_resp c) v (c_out c) (c_ext c).
+  mkConn (c_screen c) (c_rev c) (c_st c) (c_minor c) (c_chal c) (c_sent c) (c_resp c) v (c_out c) (c_ext c) (c_pws c).
+Definition set_pws (c : conn) (l : list (list N)) : conn :=
+  mkConn (c_screen c) (c_rev c) (c_st c) (c_minor c) (c_chal c) (c_sent c) (c_resp c) (c_vo c) (c_out c) (c_ext c) l.
 Definition add_ext (c : conn) (k : nat) : conn :=
-  mkConn (c_screen c) (c_rev c) (c_st c) (c_minor c) (c_chal c) (c_sent c) (c_resp c) (c_vo c) (c_out c) (c_ext c ++ [k]).
+  mkConn (c_screen c) (c_rev c) (c_st c) (c_minor c) (c_chal c) (c_sent c) (c_resp c) (c_vo c) (c_out c) (c_ext c ++ [k]) (c_pws c).
 
 (* the part of the process a message handler may touch besides its own connection *)
 Record env := mkEnv {
@@ -370,26 +400,26 @@ Definition auth_none (s : screen) (c : conn) : conn * bool :=
   else (set_st c1 StInit, false).
 
 (* rfbSendSecurityTypeList: the switch that (un)registers the built-in handlers globally ... *)
-Definition offer_store (st0 : hstore) (primary : Z) : option hstore :=
+Definition offer_store (single : bool) (st0 : hstore) (primary : Z) : option hstore :=
   if Z.eqb primary c05_rfbSecTypeNone then
-    match hs_unregister REC_FUEL st0 (Some H_VNCAUTH) with
+    match hs_unregister REC_FUEL single st0 (Some H_VNCAUTH) with
     | Some st1 => hs_register REC_FUEL st1 (Some H_NONE)
     | None => None
     end
   else
-    match hs_unregister REC_FUEL st0 (Some H_NONE) with
+    match hs_unregister REC_FUEL single st0 (Some H_NONE) with
     | Some st1 => hs_register REC_FUEL st1 (Some H_VNCAUTH)
     | None => None
     end.
 (* ... and the loop that copies the types of the global list into the message *)
-Definition offer_types (legacy : bool) (primary : Z) (st : hstore) : option (list Z) :=
-  hs_types (S (Z.to_nat c05_MAX_SECURITY_TYPES)) legacy primary st (h_head st) (Z.to_nat c05_MAX_SECURITY_TYPES - 1).
+Definition offer_types (tys : list Z) (legacy : bool) (primary : Z) (st : hstore) : option (list Z) :=
+  hs_types (S (Z.to_nat c05_MAX_SECURITY_TYPES)) tys legacy primary st (h_head st) (Z.to_nat c05_MAX_SECURITY_TYPES - 1).
 
 Definition send_type_list (cf : cfg) (e : env) (c : conn) (primary : Z) : env * conn :=
-  match offer_store (e_hs e) primary with
+  match offer_store (cfg_unreg_single cf) (e_hs e) primary with
   | None => (env_err e, set_st c StClosed)
   | Some st2 =>
-      match offer_types (cfg_global_check cf) primary st2 with
+      match offer_types (htypes (cfg_ext cf)) (cfg_global_check cf) primary st2 with
       | None => (env_err (env_hs e (Some st2)), set_st c StClosed)
       | Some tys =>
           (env_hs e (Some st2),
@@ -419,7 +449,7 @@ Definition on_version (cf : cfg) (s : screen) (e : env) (c : conn) (msg : list N
 
 (* rfbProcessClientSecurityType *)
 Definition on_sectype (cf : cfg) (s : screen) (e : env) (c : conn) (chosen : N) : env * conn * bool :=
-  match hs_find LIST_FUEL (cfg_global_check cf) (e_hs e) (h_head (e_hs e)) (Z.of_N chosen) (primary_type s c) with
+  match hs_find LIST_FUEL (htypes (cfg_ext cf)) (cfg_global_check cf) (e_hs e) (h_head (e_hs e)) (Z.of_N chosen) (primary_type s c) with
   | None => (env_err e, set_st c StClosed, false)
   | Some HReject => (e, set_st c StClosed, false)
   | Some HAuth => let '(e', c') := send_challenge e c in (e', c', false)
@@ -447,9 +477,16 @@ Definition password_check (cf : cfg) (s : screen) (c : conn) (resp : list N) : b
       end
   end.
 
+(* the passwords a screen accepts *)
+Definition screen_passwords (s : screen) : list (list N) :=
+  match s_pw s with
+  | PwNone => []
+  | PwList pws _ => pws
+  | PwFile content => match decrypt_passwd_file content with Some pw => [pw] | None => [] end
+  end.
 (* rfbAuthProcessClientMessage *)
 Definition on_response (cf : cfg) (s : screen) (e : env) (c : conn) (resp : list N) : env * conn :=
-  let c0 := set_resp c resp in
+  let c0 := set_pws (set_resp c resp) (screen_passwords s) in
   match password_check cf s c0 resp with
   | (false, c1) =>
       let c2 := add_out c1 auth_failed in
@@ -565,9 +602,10 @@ Inductive op :=
   | OUnreg (k : nat)                                       (* application: rfbUnregisterSecurityHandler(&ext[k]) *)
   | ORand (bytes : list N)                                 (* what random() will return next *)
   | OConn (s : nat) (rev : bool) (bytes : list N) (eof : bool)   (* rfbNewClient / reverse connection *)
-  | OSend (c : nat) (bytes : list N) (eof : bool).
+  | OSend (c : nat) (bytes : list N) (eof : bool)
+  | OSetFile (s : nat) (content : list N).                 (* the password file of screen s is rewritten *)
 
-Definition is_ext (k : nat) : bool := Nat.leb 2 k && Nat.ltb k (length htypes).
+Definition is_ext (k : nat) : bool := Nat.leb 2 k && Nat.ltb k NHANDLERS.
 
 Definition with_hs (p : proc) (o : option hstore) : proc :=
   match o with
@@ -576,13 +614,13 @@ Definition with_hs (p : proc) (o : option hstore) : proc :=
   end.
 
 Definition new_conn (s : nat) (rev : bool) : conn :=
-  mkConn s rev StPV 0%Z [] [] None false server_version [].
+  mkConn s rev StPV 0%Z [] [] None false server_version [] [].
 
 Definition step (cf : cfg) (p : proc) (o : op) : proc :=
   match o with
   | OScreen s => mkProc (p_hs p) (p_screens p ++ [s]) (p_conns p) (p_rand p) (p_err p) (p_unmod p)
   | OReg k => if is_ext k then with_hs p (hs_register REC_FUEL (p_hs p) (Some k)) else flag_err p
-  | OUnreg k => if is_ext k then with_hs p (hs_unregister REC_FUEL (p_hs p) (Some k)) else flag_err p
+  | OUnreg k => if is_ext k then with_hs p (hs_unregister REC_FUEL (cfg_unreg_single cf) (p_hs p) (Some k)) else flag_err p
   | ORand b => mkProc (p_hs p) (p_screens p) (p_conns p) (p_rand p ++ b) (p_err p) (p_unmod p)
   | OConn s rev bytes eof =>
       match nth_error (p_screens p) s with
@@ -594,6 +632,17 @@ Definition step (cf : cfg) (p : proc) (o : op) : proc :=
           deliver (S (length bytes)) cf p1 ci bytes eof
       end
   | OSend c bytes eof => deliver (S (length bytes)) cf p c bytes eof
+  | OSetFile s content =>
+      match nth_error (p_screens p) s with
+      | Some scr =>
+          match s_pw scr with
+          | PwFile _ =>
+              mkProc (p_hs p) (set_nth (p_screens p) s (mkScreen (PwFile content) (s_w scr) (s_h scr) (s_name scr)))
+                     (p_conns p) (p_rand p) (p_err p) (p_unmod p)
+          | _ => flag_err p
+          end
+      | None => flag_err p
+      end
   end.
 
 Definition run (cf : cfg) (p : proc) (ops : list op) : proc := fold_left (step cf) ops p.
@@ -602,17 +651,11 @@ Definition run (cf : cfg) (p : proc) (ops : list op) : proc := fold_left (step c
 Definition protected (s : screen) (c : conn) : bool := has_password s && negb (c_rev c).
 Definition granted (c : conn) : bool :=
   match c_st c with StInit | StNormal => true | _ => false end.
-(* the passwords a screen accepts *)
-Definition screen_passwords (s : screen) : list (list N) :=
-  match s_pw s with
-  | PwNone => []
-  | PwList pws _ => pws
-  | PwFile content => match decrypt_passwd_file content with Some pw => [pw] | None => [] end
-  end.
 (* the client has answered the challenge that was sent to it with its DES encryption under one
-   of the configured passwords *)
-Definition proved (s : screen) (c : conn) : Prop :=
-  exists r pw, c_resp c = Some r /\ In pw (screen_passwords s) /\ vnc_encrypt pw (c_sent c) = Some r.
+   of the passwords that were configured on its screen when the answer was checked (c_pws is set
+   to [screen_passwords] of the screen by on_response; the password file may change later) *)
+Definition proved (c : conn) : Prop :=
+  exists r pw, c_resp c = Some r /\ In pw (c_pws c) /\ vnc_encrypt pw (c_sent c) = Some r.
 
 (* observation of one connection, printed by the drivers *)
 Definition st_code (s : cstate) : Z :=
